@@ -304,7 +304,7 @@ def gen_approx_case(rng):
         else:
             t = f32(2.0 ** rng.uniform(-40, -25))
         ts.append(t)
-    bk = rng.choice(['zero', 'small', 'boundary', 'boundary', 'huge', 'mixed'])
+    bk = rng.choice(['zero', 'small', 'small', 'boundary', 'boundary', 'boundary', 'boundary', 'huge', 'mixed'])
     ub = 2 ** (esb - 1)
     bs = []
     for t in ts:
@@ -315,11 +315,14 @@ def gen_approx_case(rng):
         elif bk == 'huge':
             b = rng.choice([-1, 1]) * rng.randint(2 ** 31, 2 ** 40)
         elif bk == 'mixed':
-            b = rng.choice([0, rng.randint(-10 ** 6, 10 ** 6), rng.randint(-2 ** 33, 2 ** 33)])
+            b = rng.choice([0, rng.randint(-10 ** 6, 10 ** 6), rng.randint(-10 ** 6, 10 ** 6), rng.randint(-2 ** 31, 2 ** 31)])
         else:
             sh0 = rng.randrange(esp)
             s0 = min(max(math.ceil(Fraction(t) * 2 ** sh0), 1), ub)
-            b = rng.choice([(2 ** 31 - 1) // s0 + rng.choice([0, 1]), -((2 ** 31) // s0) - rng.choice([0, 1]), (2 ** 31) // s0, (2 ** 31 - 1) // s0])
+            if s0 == 1 and rng.random() < 0.85:
+                b = rng.randint(-50000, 50000)
+            else:
+                b = rng.choice([(2 ** 31 - 1) // s0 + rng.choice([0, 1]), -((2 ** 31) // s0) - rng.choice([0, 1]), (2 ** 31) // s0, (2 ** 31 - 1) // s0])
         bs.append(b)
     return {'cls': cls, 'scale_bit': sb, 'shift_pos': sp, 'eff': [esb, esp], 'targets': ts, 'bias': bs, 'kind': '%s/%s' % (kind, bk)}
 
@@ -381,6 +384,13 @@ def run(ctx):
         {'seed': 14, 'cin': 2, 'hw': [6, 6], 'wbits': 8, 'abits': 8, 'kwargs': {}, 'shape': 'corpus', 'bias_mode': 'all', 'clip_lo': 0.4, 'clip_hi': 8.0,
          'layers': [dict(kind='conv', cout=3, k=[3, 3], stride=[1, 1], pad=[1, 2], dil=[1, 1], dw=False, bias=True, bn=False, feat='apad')],
          'head': {'pool': False, 'bias': True, 'out': 2}},
+        {'seed': 15, 'cin': 2, 'hw': [6, 6], 'wbits': 8, 'abits': 8, 'kwargs': {}, 'shape': 'corpus', 'bias_mode': 'all', 'clip_lo': 0.4, 'clip_hi': 8.0,
+         'layers': [dict(kind='conv', cout=3, k=[3, 3], stride=[1, 1], pad=[1, 1], dil=[1, 1], dw=False, bias=True, bn=False, feat='plain'),
+                    dict(kind='conv', cout=2, k=[3, 3], stride=[1, 1], pad=[0, 0], dil=[1, 1], dw=False, bias=True, bn=False, feat='plain')],
+         'head': None},
+        {'seed': 16, 'cin': 2, 'hw': [6, 6], 'wbits': 4, 'abits': 4, 'kwargs': {}, 'shape': 'corpus', 'bias_mode': 'none', 'clip_lo': 0.4, 'clip_hi': 8.0,
+         'layers': [dict(kind='conv', cout=3, k=[3, 3], stride=[2, 2], pad=[1, 1], dil=[1, 1], dw=False, bias=False, bn=False, feat='plain')],
+         'head': None},
     ]
     specs += corpus
     for i in range(nnet):
@@ -495,6 +505,8 @@ def run(ctx):
                 for rec in res['layers']:
                     if rec.get('shape_mismatch'):
                         continue
+                    if be == 'MAUPITI' and rec['conv'] and rec['last']:
+                        continue      # no last-layer form exists for MAUPITIConv2d (open finding maupiti-final-conv-layer:*): nothing to model
                     q = layer_quantities(rec, be)
                     inf = {'spec': spec, 'layer': rec['name']}
                     sb, sp = rec['scale_bit'], rec['shift_pos']
